@@ -209,7 +209,8 @@ def _parse_directive_options(
             if not first.startswith(":") or first.startswith(":::"):
                 break
             yaml_lines.append(content_lines.pop(0).lstrip()[1:])
-        options_block = "\n".join(yaml_lines)
+        # terminate every line, as in a ``---`` block (``|`` values end in a line break)
+        options_block = "".join(ln + "\n" for ln in yaml_lines)
         # keep every line terminated, so that no (blank) line is lost when re-splitting
         content = "".join(ln + "\n" for ln in content_lines)
 
